@@ -161,8 +161,12 @@ def run(ctx):
 
 
 # ------------------------------------------------------------------ O1/O3/O5
+REGIONS_ATTR = ['_capture_regions']
+
+
 def _writers(ctx):
     rep = ctx.report
+    REGIONS_ATTR[0] = M.private_names(ctx.world)['regions']
     region_classes = ('CaptureRegion', 'EndCaptureRegion')
     n_data = n_len = n_regs = 0
     for mod in ctx.repo.modules.values():
@@ -199,9 +203,9 @@ def _writers(ctx):
                                   'region length written in %s as %s' % (
                                       where, ast.unparse(node)[:80]),
                                   where=where)
-                    if sub.attr == '_capture_regions':
+                    if sub.attr == REGIONS_ATTR[0]:
                         n_regs += 1
-                        rep.check('O5', 'store to _capture_regions in %s'
+                        rep.check('O5', 'store to the region table in %s'
                                   % fn, fn in ('FileInspector.__init__',
                                                'FileInspector.new_region',
                                                'FileInspector.'
@@ -212,10 +216,10 @@ def _writers(ctx):
                 for t in node.targets:
                     for sub in ast.walk(t):
                         if isinstance(sub, ast.Attribute) and \
-                                sub.attr == '_capture_regions':
+                                sub.attr == REGIONS_ATTR[0]:
                             fn = enclosing_function(node)
                             n_regs += 1
-                            rep.check('O5', 'delete from _capture_regions '
+                            rep.check('O5', 'delete from the region table '
                                       'in %s' % fn,
                                       fn == 'FileInspector.delete_region'
                                       or None,
@@ -302,7 +306,8 @@ def _bounds(ctx):
                     insp = o.state.get('insp') if o.state else None
                     if o.kind == 'cut' or insp is None:
                         continue
-                    regs = insp.fields.get('_capture_regions')
+                    regs = insp.fields.get(
+                        M.private_names(world)['regions'])
                     if not isinstance(regs, DictV):
                         rep.undecided('O5', 'regions[%s]' % fmt,
                                       'region table is %s' % show(regs))
